@@ -1,5 +1,6 @@
 import CoapVerif.Model.ReplayB2
 -- DRIVER-OPS: b2c => Coap.Driver.ReplayB2.b2cStep
+-- DRIVER-OPS: b2s => Coap.Driver.ReplayB2.b2sStep
 namespace Coap.Driver.ReplayB2
 open Coap.Replay Coap.ReplayB2
 
@@ -37,5 +38,41 @@ def loop : B2 → List String → List String
 
 def b2cStep (args : List String) : String :=
   if args.isEmpty then "bad-op" else "M " ++ String.intercalate " " (loop { step := 1, idctx := id1 } args)
+
+def r2v : List Nat := [1, 2, 3, 4, 5, 6, 7, 8]
+
+def showSrv (s : Srv) : String :=
+  toString s.step ++ "," ++ (if s.r2.isSome then "1" else "0") ++ "," ++ toString s.ctxs.length ++
+    String.join (s.ctxs.map (fun c => "," ++ (match c with | some i => hexBytes i | none => "-")))
+
+def showSV : Verdict → String
+  | .rej401 => "rej401" | .rej400 => "rej400" | .acc => "acc" | .drop => "drop" | _ => "other"
+
+def sevField (ev : String) : Option (List Nat) :=
+  match ev.toList with
+  | c :: ds =>
+    if c = 'x' ∨ c = 'X' then
+      match (String.mk ds).toNat? with
+      | some k => if k > 23 then none else some ((0x40 + k) :: (List.range k).map (fun j => (if c = 'x' then 0xc0 else 0xd0) + j))
+      | none => none
+    else none
+  | _ => none
+
+def sloop : Srv → List String → List String
+  | _, [] => []
+  | s, ev :: r =>
+    if ev = "R" then
+      -- set-up: oscore_r2 = R2, oscore_update_ctx(first context, R2 || ID1)
+      let s' : Srv := { s with r2 := some r2v, ctxs := s.ctxs.set 0 (some (r2v ++ id1)) }
+      ("set:" ++ showSrv s') :: sloop s' r
+    else
+      match sevField ev with
+      | none => "bad-ev" :: sloop s r
+      | some w =>
+        let x := recvForgedReq s w
+        (showSV x.2 ++ ":" ++ showSrv x.1) :: sloop x.1 r
+
+def b2sStep (args : List String) : String :=
+  if args.isEmpty then "bad-op" else "M " ++ String.intercalate " " (sloop { step := 0, r2 := none, ctxs := [none] } args)
 
 end Coap.Driver.ReplayB2
